@@ -22,7 +22,7 @@ use std::sync::atomic::{AtomicUsize, Ordering};
 use std::sync::Arc;
 use suiron::*;
 
-pub const WORDS: [&str; 10] = ["a", "b", "c", "d", "ab", "B", "a b", "z", "10", "x"];
+pub const WORDS: [&str; 12] = ["a", "b", "c", "d", "ab", "B", "a b", "z", "10", "x", "9", "07"];
 pub const FUNCTORS: [&str; 5] = ["f", "g", "h", "noun_phrase", "np4"];
 pub const PATTERNS: [&str; 9] = ["f", "g", "noun*", "no*", "*", "f*", "x*", "fg*", "noun_phrase"];
 pub const PUNCT: [&str; 4] = [",", ".", "?", "!"];
